@@ -23,7 +23,8 @@ Margin == 700      \* scheduling margin on a loaded machine (ms); stalls last se
 \* with an overall timeout, a stalled exchange ends in an error within T plus the margin
 G13_boundedByT(e) == (e.stall /\ e.T > 0) => (e.res = "err" /\ e.elapsed <= e.T + Margin)
 \* a silent read-side stall longer than the read timeout alone also ends the call
-G13_readTimeoutAlone(e) == (e.stall /\ e.T = 0 /\ e.mode = "silent" /\ e.readSide) => (e.res = "err" /\ e.elapsed <= e.R + Margin)
+\* (whether or not an overall timeout is set as well)
+G13_readTimeoutAlone(e) == (e.stall /\ e.mode = "silent" /\ e.readSide /\ e.phase # "hops") => (e.res = "err" /\ e.elapsed <= e.R + Margin)
 \* a response that completed before the deadline is never reported as timed out, whatever is read afterwards
 G13_noSpuriousTimeout(e) == (~e.stall) => (e.res = "ok" /\ e.postEofTimeouts = 0)
 \* a body cut by the deadline is never reported as complete
